@@ -818,8 +818,13 @@ sqf::runtime::runtime::result sqf::runtime::runtime::execute(sqf::runtime::runti
                 {
                     m_state = runtime::state::running;
                 }
-                execute_do(*this, 1);
+                auto res = execute_do(*this, 1);
                 m_state = oldstate;
+                if (res == result::runtime_error)
+                { // An error no handler took over: no later statement of the expression executes.
+                    eval_context->clear_frames();
+                    aborted = true;
+                }
                 if (m_is_exit_requested)
                 { // Nothing executes once an exit got requested (time limit, exit__): the evaluation is over.
                     eval_context->clear_frames();
